@@ -44,6 +44,7 @@ enum Behav {
 	B_V1_REFLECT,         // version 1: the client's own header, request and MAC with an (uncovered) response payload spliced in
 	B_PUB_SHIFTED_NO_AGG, // ext: the genuine chain's links and input, no aggregation-time element, and another publication time (stands for another second)
 	B_METADATA_IMPRINT_LIKE, // aggr: one link carries an unpadded metadata record of 33 octets that starts with 0x01 (could be read as a SHA-256 imprint)
+	B_LONG_IMPRINT,       // aggr: one sibling imprint is eight octets longer than its algorithm's digest (the chain is folded over those bytes, so everything else is consistent)
 	B__COUNT
 };
 const char *behav_name(int b);
@@ -94,6 +95,7 @@ struct RespInfo {
 	uint64_t cal_pub = 0, cal_agg = 0; std::string cal_input; bool cal_shape_ok = false;
 	std::string payload_digest;   // digest of the response payload TLV (content identity)
 	std::vector<std::string> chain_encs; std::string cal_enc; // encoded 0x0801 / 0x0802 elements of the response
+	bool malformed_imprint = false;   // an aggregation chain of the payload carries an imprint of the wrong length
 	bool authentic(int cfg_alg) const { return framed && known_tag && has_header && has_mac && mac_ok && mac_alg == cfg_alg; }
 };
 bool classify_response(const std::string &pdu, const std::string &key, RespInfo &r);
